@@ -92,6 +92,43 @@ def _as_dtype(kernel):
     return conv
 
 
+def dispersible(partable, two_d):
+    """Names of the parameters a request may disperse, from the model's declared parameter
+    types (not from the tables the implementation derives for itself): every parameter
+    declared polydisperse - sizes and, for 2-D data, orientation angles - under the name
+    requests use (vector parameters element by element)."""
+    return set(p.name for p in partable.call_parameters[2:2 + partable.npars]
+               if p.polydisperse and p.type != "magnetic" and (two_d or p.type != "orientation"))
+
+
+_JITTER = {}
+
+
+def _kernel_applies_jitter(info):
+    """True when the generated 2-D kernel rotates the particle itself (Iqac / Iqabc
+    models) and therefore weights a point by the equirectangular projection factor."""
+    from sasmodels import generate
+    if info.id not in _JITTER:
+        src = generate.make_source(info)["dll"]
+        _JITTER[info.id] = (generate.PROJECTION == 1 and
+                            ("#define CALL_IQ_AC(" in src or "#define CALL_IQ_ABC(" in src))
+    return _JITTER[info.id]
+
+
+def _eval_valid(info, point):
+    """The model's validity predicate (a C expression over parameter names) evaluated in
+    Python; None when it cannot be evaluated here."""
+    import re
+    expr = getattr(info, "valid", "") or ""
+    if not expr.strip():
+        return True
+    py = re.sub(r"!(?!=)", " not ", expr.replace("&&", " and ").replace("||", " or "))
+    try:
+        return bool(eval(py, {"__builtins__": {}}, dict(point)))     # noqa: S307 (model file text)
+    except Exception:
+        return None
+
+
 def agree(got, want, tol):
     """|got - want| <= tol, NaN-aware: a model that returns NaN or inf at a
     mesh point poisons both sides identically and that is agreement."""
@@ -189,7 +226,7 @@ def run_one(cfg, decisions=None, keep_events=False):
         # request and the distribution functions (weights.get_weights is C02's
         # subject and trusted here): which parameters may be dispersed in this
         # dimension, defaults, nsigma, distribution type, limits, relative width
-        active = partable.pd_2d if two_d else partable.pd_1d
+        active = dispersible(partable, two_d)
         for j, prm in enumerate(cpars):
             value = float(pars.get(prm.name, prm.default))
             n_, w_ = pars.get(prm.name + "_pd_n", 0), pars.get(prm.name + "_pd", 0.0)
@@ -212,7 +249,7 @@ def run_one(cfg, decisions=None, keep_events=False):
         lengths_all = [len(w) for (_, _, w) in mesh[2:npars + 2]]
         n_active = sum(1 for n in lengths_all if n > 1)
         requested = [p.name for p in cpars[2:npars + 2] if pars.get(p.name + "_pd_n", 0) and pars.get(p.name + "_pd", 0)
-                     and p.name in (partable.pd_2d if two_d else partable.pd_1d)]
+                     and p.name in active]
         events.append(["request", cfg["model"], cfg["dtype"], cfg["q"], cutoff, mode, lengths_all])
         if n_active > max_pd:
             fired["too_many_dispersed"] = 1
@@ -293,10 +330,14 @@ def run_one(cfg, decisions=None, keep_events=False):
             buf = np.empty(base + 4 + nq, kernel.dtype)
             contrib = np.zeros((n_loop, base + 4), np.longdouble)
             wprod = np.zeros(n_loop)
+            dth = np.zeros(n_loop)                 # theta jitter of the point, degrees
+            pvalid = np.ones(n_loop, bool)         # the model's own validity predicate, evaluated here
+            valid_known = True
             tv = tval.copy()
             asd = kernel.dtype.type
             for step in range(n_loop):
                 w = 1.0
+                point = {}
                 for j in range(npars):
                     value, disp, wt = mesh[2 + j]
                     if j in order:
@@ -306,6 +347,9 @@ def run_one(cfg, decisions=None, keep_events=False):
                         i = 0
                     x = disp[i]
                     w *= float(wt[i])
+                    point[cpars[2 + j].id] = float(x)
+                    if cpars[2 + j].type == "orientation" and cpars[2 + j].name == "theta":
+                        dth[step] = float(x)
                     o = nvalues + toff[j]
                     if j in dup:
                         tv[o] = tv[o + 1] = asd(x)
@@ -323,6 +367,11 @@ def run_one(cfg, decisions=None, keep_events=False):
                 raw_call(kernel, fn, nq, 0, tn, tdet, tv, buf, 0.0, mode)
                 contrib[step] = buf[:base + 4]
                 wprod[step] = w
+                ok = _eval_valid(info, point)
+                if ok is None:
+                    valid_known = False
+                else:
+                    pvalid[step] = ok
             wk = np.array(contrib[:, base], dtype="d")          # weight as the kernel saw it (with projection, 0 if invalid)
             valid = wk > 0
             probe("invalid_or_zero_weight_points", int(np.sum(~valid)))
@@ -332,6 +381,24 @@ def run_one(cfg, decisions=None, keep_events=False):
             ratio = np.where(valid, wk / np.where(wprod > 0, wprod, 1.0), 1.0)
             if cfg["dtype"] == "double" and np.any((ratio > 1 + 1e-12) | (ratio < -1e-12)):
                 fail("A1", "weight seen by the kernel exceeds the product of distribution weights", cause="weights")
+            # ... and exactly, in double precision: the weight a point enters with is the product
+            # of its distribution weights, times |cos(theta jitter)| where the kernel applies the
+            # jitter itself (2-D, oriented, equirectangular projection), and 0 only where the
+            # model's own validity predicate says so.  (Until here the reference took the weight
+            # from the kernel, so a point the kernel dropped was dropped from the reference too.)
+            if cfg["dtype"] == "double" and valid_known and not violations:
+                proj = np.abs(np.cos(np.radians(dth))) if (two_d and _kernel_applies_jitter(info)) else np.ones(n_loop)
+                want_w = np.where(pvalid, wprod * proj, 0.0)
+                badw = np.abs(wk - want_w) > 1e-10 * np.maximum(wprod, 1e-300)
+                if np.any(badw):
+                    k_ = int(np.argmax(badw))
+                    fail("A1", "mesh point %d enters with weight %r; the product of its distribution weights is %r, "
+                         "projection factor %r (theta jitter %r deg), valid by the model's predicate: %r"
+                         % (k_, float(wk[k_]), float(wprod[k_]), float(proj[k_]), float(dth[k_]), bool(pvalid[k_])),
+                         cause="point_weight")
+                probe("point_weights_checked_exactly")
+                if two_d and _kernel_applies_jitter(info) and np.any(np.abs(dth) > 90):
+                    probe("theta_jitter_beyond_90_degrees")
             include = valid & (wk > cutoff)
             close = valid & (np.abs(wk - cutoff) <= 8 * np.finfo(kernel.dtype).eps * max(cutoff, 1e-300)) & (wk != cutoff)
             if len(order) > 1:
@@ -551,7 +618,7 @@ def gen_pars(w, info, two_d, tier):
     distribution type, mesh sizes on both sides of 100, limits that cut a
     distribution to 2, 1 or 0 points."""
     partable = info.parameters
-    pd_names = sorted(partable.pd_2d if two_d else partable.pd_1d)
+    pd_names = sorted(dispersible(partable, two_d))
     pars = {}
     byname = dict((p.name, p) for p in partable.call_parameters)
     # perturb some plain values
@@ -630,13 +697,13 @@ def gen_config(run_seed, tier):
     name = w.choice(pool)
     info = core.load_model_info(name)
     partable = info.parameters
-    oriented = bool(partable.pd_2d - partable.pd_1d) if hasattr(partable.pd_2d, "__sub__") else False
+    oriented = bool(dispersible(partable, True) - dispersible(partable, False))
     two_d = c.random() < (0.45 if oriented else 0.15)
     pars, k = gen_pars(w, info, two_d, tier)
     cutoff = c.choice([0.0, 0.0, 1e-5, 1e-3, 0.1])
-    if c.random() < 0.04 and partable.pd_1d:
+    if c.random() < 0.04 and dispersible(partable, False):
         # the boundary case: every weight equals the cutoff exactly
-        nm = sorted(partable.pd_1d)[0]
+        nm = sorted(dispersible(partable, False))[0]
         pars = {nm + "_pd": 0.2, nm + "_pd_n": 10, nm + "_pd_type": "uniform", "background": 0.25}
         cutoff, two_d = 0.1, False
     if two_d and partable.nmagnetic and c.random() < 0.15:
@@ -694,6 +761,11 @@ def sweep_configs(tier):
         "radius_pd": 0.2, "radius_pd_n": 35, "thickness_pd": 0.2, "thickness_pd_n": 40}))
     out.append(dict(base, model="vesicle", q="q3", sched_seed=12, pars={
         "radius_pd": 0.2, "radius_pd_n": 41, "thickness_pd": 0.1, "thickness_pd_n": 29, "thickness_pd_type": "schulz"}))
+    # theta jitter reaching beyond +-90 degrees: the projection factor is |cos|, such points take part
+    out.append(dict(base, model="cylinder", q="xy4", sched_seed=15, cutoff=1e-5, pars={
+        "theta": 30.0, "theta_pd": 50.0, "theta_pd_n": 7, "theta_pd_nsigma": 3.0, "radius_pd": 0.1, "radius_pd_n": 4}))
+    out.append(dict(base, model="parallelepiped", q="xy6", sched_seed=16, pars={
+        "theta": 60.0, "theta_pd": 120.0, "theta_pd_n": 5, "theta_pd_type": "uniform", "psi_pd": 15.0, "psi_pd_n": 3}))
     return [dict(c, family="fixed_workloads") for c in out]
 
 
